@@ -28,8 +28,12 @@ func genSR(t *rapid.T) SRCase {
 	c := SRCase{}
 	c.K = math.Exp(rapid.Float64Range(0, math.Log(1e6)).Draw(t, "logk"))
 	c.M = rapid.Float64Range(0.3, 1).Draw(t, "m")
-	if rapid.IntRange(0, 3).Draw(t, "mone") == 0 {
+	switch rapid.IntRange(0, 7).Draw(t, "mone") {
+	case 0, 7:
 		c.M = 1
+	case 3:
+		// just below the linear case (the model treats |m-1| < 0.001 as 1 only when there is an inflow bias)
+		c.M = 1 - math.Exp(rapid.Float64Range(math.Log(1e-6), math.Log(5e-3)).Draw(t, "mnear"))
 	}
 	c.DT = rapid.SampledFrom([]float64{86400, 86400, 3600, 21600}).Draw(t, "dt")
 	if rapid.IntRange(0, 2).Draw(t, "dead") == 0 {
